@@ -58,11 +58,39 @@ def run(tier):
             c.cov["traces_validated_against_impl"] += 1
             c.add_tlc("Trace_CArc.cfg (free-running threads)", r, exhaustive=False)
     c.cov["concurrent_events_validated"] = conc_events
+    markers(c)
     c.assumptions += ["scheduled replays: interleaving granularity = one public operation; free-running mode: 3 OS threads operate on their own handles of shared allocations at once, events are ordered by a global sequence number taken at completion (operations of different threads touch disjoint slots, so every merge that respects per-thread order is an admissible linearisation) and the counts are compared after the threads have joined",
                       "payloads: an ordinary struct and one with #[repr(align(64))]", "strong count is read through a std Arc retained by the environment; allocations created by From<T> are observed through destructor counts only"]
     c.finish({"behaviours_replayed": tb + tb2, "replay_steps": ts + ts2, "trace_events_validated": nev,
               "exhaustive": True, "evaluations": tb + tb2, "distinct_nontrivial": nb + nb2,
               "rule": "all behaviours of Gen_CArc up to its depth (canonical destination slot) + TLC -simulate behaviours of depth 40; each replayed with operations executed on the thread the spec names"})
+
+
+def markers(c):
+    """"on any number of threads": a CArc / CArcSome may be sent or shared exactly when the Arc it stands for may
+    (spec/SendSync.tla, BaseHas: Arc<T> is Send and Sync iff T is both).  Read with the marker probe of C09."""
+    import json
+    wd = lib.workdir("c10")
+    out = os.path.join(wd, "sendsync.out")
+    lib.run_tlc("SendSync", "SendSync.cfg", name="sendsync_c10", workers=1, timeout=300, out_path=out)
+    jl = os.path.join(wd, "pred.jsonl")
+    if lib.extract_replays(out, jl) != 1:
+        raise lib.ToolError("SendSync.tla printed no matrix")
+    pred = {(x["w"], x["i"], x["p"]): x for x in json.loads(open(jl).read())["cells"]}
+    bindir = cargo_build("probes", bins=["sendprobe"])
+    rc, _, outp = lib.run_adapter([os.path.join(bindir, "sendprobe")])
+    if rc != 0:
+        raise lib.ToolError("send/sync probe failed to run")
+    n = 0
+    for cell in json.loads(outp.strip().splitlines()[-1]):
+        if cell["w"] == "inst" and cell["i"] in ("carc", "carcsome") and cell["exists"]:
+            p = pred.get(("inst", cell["i"], cell["p"]))
+            for m in ("Send", "Sync"):
+                n += 1
+                if p is not None and cell["base"][m] != p["base"][m]:
+                    c.violation("%s over a %s payload is %s%s, the Arc it stands for is %s%s" % (
+                        {"carc": "CArc", "carcsome": "CArcSome"}[cell["i"]], cell["p"], "" if cell["base"][m] else "not ", m, "" if p["base"][m] else "not ", m), {"cell": cell})
+    c.cov["marker_cells"] = n
 
 
 def replay(path):
